@@ -13,7 +13,7 @@ def parse_suite(name, nq, nt):
 
 SUITES = {
     "PARSE-SEP": parse_suite("sep", 5, 7),
-    "PARSE-PATH": parse_suite("path", 3, 4),
+    "PARSE-PATH": parse_suite("path", 3, 5),
     "PARSE-QUAL": parse_suite("qual", 3, 5),
     "PARSE-TYPED": parse_suite("typed", 3, 5),
     "PARSE-NS": parse_suite("nsseg", 3, 5),
